@@ -118,4 +118,10 @@ def run(ctx):
             continue
         case, info = g
         annotate(rng, case, info)
+        if rng.random() < 0.2 and case["mods"]:
+            # two of the inputs carry the same record identifier (unnamed records, a part named like its vector)
+            a = rng.choice(case["mods"])
+            b = rng.choice([e for e in [case["vector"]] + case["mods"] if e is not a])
+            a["rid"] = b["rid"]
+            case["shared_id"] = True
         ctx.guard(check_case, case)
